@@ -26,10 +26,12 @@ def make_cases(rng, tier, n):
         edges = c["edges"]
         names = [sp for sp, st in c["stages"]]
         srcs = {}
+        consumers = {}
         for i, (sp, st) in enumerate(c["stages"]):
             for p, fl in st.get("in", []):
                 if p.startswith(b"src/"):
                     srcs[i] = p
+                    consumers.setdefault(p, set()).add(i)
         ops = [("run", False, [])]
         dirty = set()
         vers = {}
@@ -46,14 +48,16 @@ def make_cases(rng, tier, n):
                 i = rng.choice(cand)
                 ops += [("run", False, []), ("commit", rng.choice("lc"), []),
                         ("write", srcs[i], "g:%d:%d" % (rng.randrange(100000), rng.choice([2, 9]))),
-                        ("run", True, [names[i]]), ("commit", rng.choice("lc"), [names[i]])]
-                dirty = downstream(edges, [i])
-                hist.append("partial-run-partial-commit")
+                        ("run", True, [names[i]])]
+                dirty = (set(consumers[srcs[i]]) - {i}) | downstream(edges, [i])
+                if not (upstream(edges, [i]) & dirty):
+                    ops.append(("commit", rng.choice("lc"), [names[i]]))        # commits exactly what was just regenerated
+                    hist.append("partial-run-partial-commit")
                 continue
             if ev == "edit_src" and srcs:
                 i = rng.choice(list(srcs))
                 ops.append(("write", srcs[i], "g:%d:%d" % (rng.randrange(100000), rng.choice([1, 4, 30]))))
-                dirty.add(i)
+                dirty |= consumers[srcs[i]]
             elif ev == "edit_def":
                 i = rng.randrange(ns)
                 sp, st = c["stages"][i]
@@ -147,6 +151,44 @@ def finding_of(run, tag, text):
     return None
 
 
+def big_output(R, dud, drv, rng, tier, runs):
+    """an output larger than the 8 MiB comparison buffer, committed as a copy, then damaged near its end without changing its size:
+    the next run must regenerate it (and everything downstream)"""
+    import os, subprocess, tempfile, shutil
+    base = tempfile.mkdtemp(prefix="c09big.", dir=vlib.scratch())
+    env = dict(os.environ, XDG_CONFIG_HOME=os.path.join(base, "xdg"), HOME=base, LC_ALL="C")
+    root = os.path.join(base, "p")
+    os.makedirs(root)
+    subprocess.run([dud, "init"], cwd=root, env=env, stdout=subprocess.DEVNULL, stderr=subprocess.DEVNULL)
+    size = (8 << 20) + rng.choice([1, 4097, 1 << 20])
+    open(os.path.join(root, "gen.yaml"), "w").write("command: rm -f big.bin; head -c %d /dev/zero | tr '\\\\0' 'x' > big.bin; echo gen >> LOG\ninputs:\n  seed.txt: {}\noutputs:\n  big.bin: {}\n" % size)
+    open(os.path.join(root, "use.yaml"), "w").write("command: rm -f small.txt; tail -c 64 big.bin > small.txt; echo use >> LOG\ninputs:\n  big.bin: {}\noutputs:\n  small.txt: {}\n")
+    open(os.path.join(root, "seed.txt"), "w").write("s")
+    for c in (["stage", "add", "gen.yaml", "use.yaml"], ["run"], ["commit", "--copy"]):
+        subprocess.run([dud] + c, cwd=root, env=env, stdout=subprocess.DEVNULL, stderr=subprocess.DEVNULL)
+    viol = []
+    for off in (size - 1, (8 << 20) + 0, size - 70):
+        p = os.path.join(root, "big.bin")
+        data = bytearray(open(p, "rb").read())
+        if len(data) != size:
+            viol.append("setup: big.bin has %d bytes" % len(data))
+            break
+        data[off] ^= 0xFF
+        tmp = p + ".new"
+        open(tmp, "wb").write(data)
+        os.replace(tmp, p)
+        open(os.path.join(root, "LOG"), "w").close()
+        r = subprocess.run([dud, "run"], cwd=root, env=env, stdout=subprocess.PIPE, stderr=subprocess.PIPE)
+        log = open(os.path.join(root, "LOG")).read().split()
+        R.count("big-%d" % off, True)
+        if r.returncode != 0 or "gen" not in log:
+            viol.append("output big.bin (%d bytes) damaged at offset %d without changing its size: `dud run` executed %s (exit %d)" % (size, off, log, r.returncode))
+        subprocess.run([dud, "commit", "--copy"], cwd=root, env=env, stdout=subprocess.DEVNULL, stderr=subprocess.DEVNULL)
+    shutil.rmtree(base, ignore_errors=True)
+    if viol:
+        R.violation(dict(kind="property-violated-on-implementation", scenario="output larger than 8 MiB damaged near its end", violations=viol))
+
+
 def main(tier, replay=None):
     return s1eval.generic_main(PROP, tier, replay, make_cases, oracle, finding_of,
                                nontrivial=lambda run: bool(run["case"].get("hist")),
@@ -154,4 +196,4 @@ def main(tier, replay=None):
                                     "damage/delete an output, run [targets] [--single-stage], commit [targets]} where commits directly follow a "
                                     "successful run and never cover a stage changed since it ran; oracle after every successful recursive run of all "
                                     "stages: every output equals what its command produces from the inputs as they are now; run;commit;run idle; "
-                                    "non-trivial = history contains a commit", seed_salt=9, n_quick=150, n_thorough=2000)
+                                    "non-trivial = history contains a commit", seed_salt=9, n_quick=150, n_thorough=2000, extra=big_output)
